@@ -149,4 +149,18 @@ def witness2 : State :=
 theorem witness2_reachable : Reachable (· ∈ inits) Step witness2 :=
   runSched_reachable (s := State.init ⟨true, true⟩) (xs := witness2Sched) (.base (by decide)) (by decide)
 
+/-! ### the finding `oracle:samedata:code`: a dependency whose condition IS its target
+
+`GraphDependencyBuilder::build` registers such a dependency twice in the data's `_successors`, so
+`GraphDependency::ready(data)` runs twice and both calls take the `data == _condition` branch.
+With the condition not established each call decrements twice.  The arithmetic of that branch: -/
+def readyCondNotEst (w : Int) : Int :=
+  let w1 := w - (Babylon.Gen.Anyflow.readyDec : Int)
+  if w1 ≠ Babylon.Gen.Anyflow.readySecondSubUnless then w1 - (Babylon.Gen.Anyflow.readyDec2 : Int) else w1
+
+/-- the counter after the data became ready (two calls) before the activation, and the value the
+activation's `switch` then sees -/
+def sameDataBeforeActivate : Int := readyCondNotEst (readyCondNotEst 0)
+def sameDataSwitchValue : Int := sameDataBeforeActivate + (Babylon.Gen.Anyflow.incCond : Int)
+
 end Babylon.Anyflow.Dep
